@@ -40,3 +40,13 @@ Example ex_full : match a_init ex_cfg with
       a_avail P a' = 0 /\ in_flight a' = slen a' - 1 /\ a_attached P a' = true
   | None => False end.
 Proof. vm_compute. repeat split. Qed.
+
+(** [C05_available_then_advance] is not vacuous: on the fresh example buffer the producer's [available()] answers 3 (= len - 1), and after
+    the two steps [avail P], [adv P =3] the consumer finds exactly those three slots *)
+Example ex_avail_then_advance : match init ex_cfg, a_init ex_cfg with
+  | Some m, Some a =>
+      fst (snd (step m (Avail P))) = ONum 3 /\
+      ok_op (fst (sstep a (Avail P))) (Advance P 3) = true /\
+      a_avail C (fst (fst (srun a [Avail P; Advance P 3; Avail W; Advance W 3]))) = 3
+  | _, _ => False end.
+Proof. vm_compute. repeat split. Qed.
